@@ -1115,3 +1115,149 @@ RECIPES += [
     ("C03", "break", ["C03-R4"], S, "        nzeros = int(np.ceil(sr / minf))\n", "        nzeros = int(sr // minf)\n", "_add_one_cycle: floor division (a partial cycle)"),
     ("C03", "break", ["C03-R4"], S, "        nzeros = int(np.ceil(sr / minf))\n", "        nzeros = int(np.round(sr / minf))\n", "_add_one_cycle: rounded to nearest"),
 ]
+
+
+# ---- pass 5: a starred coefficient pair, task iterables of every spelling, coefficient pairs precomputed in a comprehension / map, a coefficient
+#      function that returns through a dictionary / a namedtuple, the eqsine flag folded into a divisor
+_W_HIST = ('    (j, (coeffunc, Q, dT, methfunc, S)) = args\n    b, a = coeffunc(Q, dT, WN_[j])\n    resphist = signal.lfilter(b, a, SIG_, axis=0)\n'
+           '    SRSmax_[j] = methfunc(resphist[S:])\n    HIST_[:, :, j]')
+_W_NOHIST = ('    (j, (coeffunc, Q, dT, methfunc, S)) = args\n    b, a = coeffunc(Q, dT, WN_[j])\n    resphist = signal.lfilter(b, a, SIG_, axis=0)\n'
+             '    SRSmax_[j] = methfunc(resphist[S:])\n\n\ndef _dosrs(')
+_W_BA = "    b, a = coeffunc(Q, dT, WN_[j])\n    resphist = signal.lfilter(b, a, SIG_, axis=0)\n"
+_POOL = "                for _ in pool.imap_unordered(func, zip(range(LF), it.repeat(args, LF))):\n                    pass\n"
+_POOL_TAIL = ('            SRSmax = np.frombuffer(SRSmax[0]).reshape(SRSmax[1])\n            if getresp:\n                HIST = np.frombuffer(HIST[0]).reshape(HIST[1])\n'
+              '                resp["hist"] = HIST\n        else:\n            dT = 1 / sr\n            for j in range(LF):\n                b, a = coeffunc(Q, dT, wn[j])\n'
+              '                resphist = signal.lfilter(b, a, sig, axis=0)\n')
+_POOL_IC = _POOL + _POOL_TAIL + "                if stype"
+_POOL_NOIC = _POOL + _POOL_TAIL + "                SRSmax"
+_SER_NOIC = '''            dT = 1 / sr
+            for j in range(LF):
+                b, a = coeffunc(Q, dT, wn[j])
+                resphist = signal.lfilter(b, a, sig, axis=0)
+                SRSmax[j] = methfunc(resphist[S:])
+                if getresp:
+                    resp["hist"][:, :, j] = resphist[S:]
+'''
+_SER_IC_HEAD = '''            dT = 1 / sr
+            for j in range(LF):
+                b, a = coeffunc(Q, dT, wn[j])
+                resphist = signal.lfilter(b, a, sig, axis=0)
+                if stype == "reldisp":
+'''
+
+
+def _ser_noic(head, loop="for j, (b, a) in enumerate(coefs):", extra=""):
+    return ("            dT = 1 / sr\n" + head + "            " + loop + "\n" + extra + "                resphist = signal.lfilter(b, a, sig, axis=0)\n"
+            "                SRSmax[j] = methfunc(resphist[S:])\n                if getresp:\n                    resp[\"hist\"][:, :, j] = resphist[S:]\n")
+
+
+def _ser_ic(comp):
+    return ("            dT = 1 / sr\n            coefs = " + comp + "\n            for j, (b, a) in enumerate(coefs):\n"
+            "                resphist = signal.lfilter(b, a, sig, axis=0)\n                if stype == \"reldisp\":\n")
+
+
+_ABS_BODY = '''    zeta = 1 / 2 / Q
+    sqz = sqrt(1 - zeta * zeta)
+    wd = wn * sqz
+    E = exp(-zeta * wn * dT)
+    E2 = E * E
+    B = dT * wd
+    C = E * cos(B)
+    if wn == 0:
+        b = np.array([0.0, 0.0, 0.0])
+    else:
+        S = E * sin(B)
+        Sb = S / B
+        beta0 = 1 - Sb
+        beta1 = 2 * (Sb - C)
+        beta2 = E2 - Sb
+        b = np.array([beta0, beta1, beta2])
+    a = np.array([1, -2 * C, E2])
+    return b, a
+'''
+_ABS_RET = "    a = np.array([1, -2 * C, E2])\n    return b, a\n"
+_ABS_DICT = _ABS_BODY.replace(_ABS_RET, '    out = {"b": b}\n    out["a"] = np.array([1, -2 * C, E2])\n    return out["b"], out["a"]\n')
+_ABS_EARLY = _ABS_BODY.replace("    if wn == 0:\n        b = np.array([0.0, 0.0, 0.0])\n    else:\n        S = E * sin(B)\n        Sb = S / B\n        beta0 = 1 - Sb\n"
+                               "        beta1 = 2 * (Sb - C)\n        beta2 = E2 - Sb\n        b = np.array([beta0, beta1, beta2])\n" + _ABS_RET,
+                               "    a = np.array([1, -2 * C, E2])\n    if wn == 0:\n        return np.zeros(3), a\n    S = E * sin(B)\n    Sb = S / B\n"
+                               "    return np.array([1 - Sb, 2 * (Sb - C), E2 - Sb]), a\n")
+_ABS_DEF = ('def absacce(Q, dT, wn):\n    """\n    Utility routine used by :func:`srs` to get absolute acceleration\n    digital filter coefficients. Returns (b, a) for use in\n'
+            '    :func:`scipy.signal.lfilter`.\n    """\n')
+_NT = 'import collections\n\n_Coefs = collections.namedtuple("_Coefs", "b a")\n\n\n'
+_EQ_DIV = '''    divisor = Q if eqsine else 1
+    SRSmax /= divisor
+    if getresp:
+        resp["hist"] /= divisor
+        return SRSmax, resp
+    return SRSmax
+'''
+
+RECIPES += [
+    ("C03", "neutral", [], S, _W_HIST, _W_HIST.replace(_W_BA, "    resphist = signal.lfilter(*coeffunc(Q, dT, WN_[j]), SIG_, axis=0)\n"),
+     "_dosrs: lfilter(*coeffunc(Q, dT, WN_[j]), SIG_, axis=0)"),
+    ("C03", "neutral", [], S, _W_HIST, _W_HIST.replace(_W_BA, "    resphist = signal.lfilter(*coeffunc(Q, dT, WN_[j]), x=SIG_, axis=0)\n"),
+     "_dosrs: starred coefficient pair, signal by keyword"),
+    ("C03", "neutral", [], S, _W_HIST, _W_HIST.replace(_W_BA, "    ba = coeffunc(Q, dT, WN_[j])\n    resphist = signal.lfilter(ba[0], ba[1], SIG_, axis=0)\n"),
+     "_dosrs: coefficient pair indexed"),
+    ("C03", "break", ["C03-R3"], S, _W_NOHIST, _W_NOHIST.replace(_W_BA, "    resphist = signal.lfilter(*coeffunc(Q, dT, WN_[j])[::-1], SIG_, axis=0)\n"),
+     "_dosrs_nohist: starred coefficient pair read backwards (a, b)"),
+    ("C03", "break", ["C03-R3"], S, _W_NOHIST, _W_NOHIST.replace(_W_BA, "    a, b = coeffunc(Q, dT, WN_[j])\n    resphist = signal.lfilter(b, a, SIG_, axis=0)\n"),
+     "_dosrs_nohist: coefficient pair unpacked as (a, b)"),
+    ("C03", "neutral", [], S, _POOL_NOIC, _POOL_NOIC.replace(_POOL, "                for _ in pool.imap_unordered(func, enumerate(it.repeat(args, LF))):\n                    pass\n"),
+     "srs: tasks as enumerate(it.repeat(args, LF))"),
+    ("C03", "neutral", [], S, _POOL_NOIC, _POOL_NOIC.replace(_POOL, "                for _ in pool.imap_unordered(func, ((j, args) for j in range(LF))):\n                    pass\n"),
+     "srs: tasks from a generator expression"),
+    ("C03", "neutral", [], S, _POOL_IC, _POOL_IC.replace(_POOL, "                pool.map(func, [(j, args) for j in range(LF)])\n"),
+     "srs: pool.map over a list comprehension of tasks"),
+    ("C03", "break", ["C03-R3"], S, _POOL_IC, _POOL_IC.replace(_POOL, "                pool.map(func, [(j, (coeffunc, Q, sr, methfunc, S, stype)) for j in range(LF)])\n"),
+     "srs: tasks of a list comprehension carry sr where the workers expect the step 1/sr"),
+    ("C03", "break", ["C03-R3"], S, "            args = (coeffunc, Q, 1 / sr, methfunc, S, stype)\n", "            args = (coeffunc, Q, sr, methfunc, S, stype)\n",
+     "srs: the workers with add-back get sr for the step"),
+    ("C03", "break", ["C03-R3"], S, "            args = (coeffunc, Q, 1 / sr, methfunc, S)\n", "            args = (coeffunc, Q, sr, methfunc, S)\n",
+     "srs: the workers without add-back get sr for the step"),
+    ("C03", "neutral", [], S, _SER_NOIC, _ser_noic("            coefs = [coeffunc(Q, dT, w) for w in wn]\n"),
+     "srs: coefficient pairs precomputed in a list comprehension, loop over enumerate"),
+    ("C03", "neutral", [], S, _SER_NOIC, _ser_noic("", loop="for j, (b, a) in enumerate(map(lambda w: coeffunc(Q, dT, w), wn)):"),
+     "srs: coefficient pairs from map(lambda) in the loop header"),
+    ("C03", "neutral", [], S, _SER_NOIC, _ser_noic("            coefs = [coeffunc(Q, dT, w) for w in wn]\n", loop="for j, (b, a) in zip(range(LF), coefs):"),
+     "srs: precomputed coefficient pairs, loop over zip(range(LF), coefs)"),
+    ("C03", "neutral", [], S, _SER_NOIC, _ser_noic("            coefs = list(map(lambda w: coeffunc(Q, dT, w), wn))\n", loop="for j in range(LF):", extra="                b, a = coefs[j]\n"),
+     "srs: precomputed coefficient pairs indexed by the loop counter"),
+    ("C03", "neutral", [], S, _SER_NOIC, '''            dT = 1 / sr
+            hists = (signal.lfilter(*coeffunc(Q, dT, w), sig, axis=0)[S:] for w in wn)
+            for j, resphist in enumerate(hists):
+                SRSmax[j] = methfunc(resphist)
+                if getresp:
+                    resp["hist"][:, :, j] = resphist
+''', "srs: filtered windows from a generator expression"),
+    ("C03", "break", ["C03-R4"], S, _SER_NOIC, _ser_noic("            coefs = [coeffunc(Q, sr, w) for w in wn]\n"),
+     "srs: precomputed coefficient pairs for the step sr"),
+    ("C03", "break", ["C03-R3"], S, _SER_IC_HEAD, _ser_ic("[coeffunc(Q, dT, w) for w in wn[::-1]]"),
+     "srs: precomputed coefficient pairs in reversed frequency order (add-back for another frequency)"),
+    ("C03", "break", ["C03-R3"], S, _SER_IC_HEAD, _ser_ic("[coeffunc(Q, dT, w) for w in freq]"),
+     "srs: precomputed coefficient pairs for Hz instead of rad/s"),
+    ("C03", "neutral", [], S, _SER_IC_HEAD, _ser_ic("[coeffunc(Q, dT, w) for w in wn]"),
+     "srs: add-back loop over precomputed coefficient pairs"),
+    ("C03", "neutral", [], S, _ABS_BODY, _ABS_DICT, "absacce: coefficients collected in a dictionary, returned by key"),
+    ("C03", "break", ["C03-R1"], S, _ABS_BODY, _ABS_DICT.replace('out["a"] = np.array([1, -2 * C, E2])', 'out["a"] = np.array([1, 2 * C, E2])'),
+     "absacce: dictionary form with the sign of a[1] lost"),
+    ("C03", "neutral", [], S, _ABS_BODY, _ABS_EARLY, "absacce: early return in the wn == 0 branch, np.zeros(3)"),
+    ("C03", "neutral", [], S, _ABS_DEF + _ABS_BODY, _NT + _ABS_DEF + _ABS_BODY.replace("    return b, a\n", "    return _Coefs(b, a)\n"),
+     "absacce: returns a module-level namedtuple (b, a)"),
+    ("C03", "neutral", [], S, _ABS_DEF + _ABS_BODY, _NT + _ABS_DEF + _ABS_BODY.replace("    return b, a\n", "    return _Coefs(a=a, b=b)\n"),
+     "absacce: namedtuple built by keyword"),
+    ("C03", "break", ["C03-R1"], S, _ABS_DEF + _ABS_BODY, _NT + _ABS_DEF + _ABS_BODY.replace("    return b, a\n", "    return _Coefs(a, b)\n"),
+     "absacce: namedtuple fields filled in the wrong order"),
+    ("C03", "neutral", [], S, _TAIL, _EQ_DIV, "srs: eqsine folded into a divisor (Q or 1)"),
+    ("C03", "break", ["C03-R7"], S, _TAIL, _EQ_DIV.replace("Q if eqsine else 1", "1 if eqsine else Q"), "srs: divisor selected the wrong way round"),
+]
+
+_POOLK_NOIC = "            with mp.Pool(\n                processes=ncpu, initializer=_mk_par_globals, initargs=gvars\n            ) as pool:\n"
+_POOLK_IC = "            with mp.Pool(\n                processes=ncpu, initializer=_mk_par_globals_ic, initargs=gvars\n            ) as pool:\n"
+RECIPES += [
+    ("C03", "neutral", [], S, _POOLK_NOIC, "            with mp.Pool(ncpu, _mk_par_globals, gvars) as pool:\n", "srs: Pool arguments by position"),
+    ("C03", "neutral", [], S, _POOLK_IC, "            with mp.Pool(ncpu, _mk_par_globals_ic, (WN, SIG, ICVALS, SRSmax, HIST)) as pool:\n", "srs: Pool arguments by position, initargs as a display"),
+    ("C03", "break", ["C03-R3"], S, _POOLK_IC, "            with mp.Pool(ncpu, _mk_par_globals_ic, (WN, SIG, SIG, SRSmax, HIST)) as pool:\n",
+     "srs: positional initargs hand the signal to the workers as the steady-state values"),
+    ("C03", "neutral", [], S, "            args = (coeffunc, Q, 1 / sr, methfunc, S)\n", "            args = (coeffunc, Q, sr**-1, methfunc, S)\n", "srs: the step as sr**-1"),
+]
